@@ -179,7 +179,7 @@ def _(c):
 
 # ---- adding and subtracting levels -------------------------------------------------------------------------
 for opname, sign in (("__add__", "+"), ("__sub__", "-")):
-    @contract(f"{Q}.{opname}", ["C05"], name=f"Quantity.{opname}[levels]")
+    @contract(f"{Q}.{opname}", ["C05", "C07"], name=f"Quantity.{opname}[levels]")
     def _(c, sign=sign):
         for u in ["dB", "B", "dBm", "dBA", "dBV", "dBSPL"]:
             fv = 0.1 if u.startswith("d") else 1.0
@@ -304,4 +304,21 @@ def _(c):
         c.scenario(f"{a}->{b}", pre)
     c.ensures("all([near(r, f.value(ub), 0) for r, f in zip(elems(result), fresh)]) and len(elems(result)) == 3", "same-as-the-scalar-conversion-of-each-element")
     c.ensures("elems(q.magnitude.value) == xs and elems(arr) == xs", "the-quantity-keeps-its-values")
+    c.no_raise()
+
+
+# ---- a temperature that results from arithmetic (a unit cancelled on the way) converts by the same affine formulas --------------------
+@contract(Q + ".value", ["C05"], name="Quantity.value[temperature-after-arithmetic]")
+def _(c):
+    for ua, ub, how, tu, target in [("K/s", "s", "mul", "K", "Cel"), ("Cel*s", "s", "div", "Cel", "K"), ("degF/m", "m", "mul", "degF", "Cel"), ("K*m", "m", "div", "K", "degF")]:
+        def pre(bd, ua=ua, ub=ub, how=how, tu=tu, target=target):
+            x, y = bd.real("x"), bd.real("y")
+            a, b = bd.new(Q, x, ua), bd.new(Q, y, ub)
+            r, exc = bd.call_catching(bd.getattr(a, "__mul__" if how == "mul" else "__truediv__"), b)
+            bd.assume(exc is None)   # the path on which the quotient itself fails (y == 0) is not a pre-state
+            return dict(args=[r, target], env=dict(x=x, y=y, how=how, tu=tu, target=target, r=r))
+        c.scenario(f"{ua} {'*' if how == 'mul' else '/'} {ub} -> {target}", pre)
+    c.requires("y != 0")
+    c.ensures("near(result, from_kelvin(target, to_kelvin(tu, x * y if how == 'mul' else x / y)), 1000)", "standard-affine-formula")
+    c.ensures("r.baseunits.expression == tu", "the-operand-is-a-plain-temperature")
     c.no_raise()
